@@ -47,7 +47,8 @@ def run(ctx: Ctx) -> None:
     n_actions = 0
     for action, (op, cat_guard, budget_guard) in ACTIONS.items():
         f = ctx.func(f"{C.MESSAGE}.{action}")
-        g = ctx.cfg(f)
+        # private helpers of Message (e.g. an extracted guard) are part of the action
+        g = flow.inline(f, ctx.res, 3, lambda n, cal: cal.cls is not None and cal.cls.qualname == C.MESSAGE and cal.name not in ACTIONS)
         facts = message_action_facts(ctx, f, g)
         n_actions += 1
         bcalls = facts["broker_calls"]
